@@ -83,8 +83,12 @@ func ReportExplore(c *vlib.Check, r *explore.Result, prop string, generic ...str
 		if !Wanted(v.Kind, prop, generic...) {
 			continue
 		}
-		c.Violation(map[string]string{"engine": "explore", "kind": v.Kind, "site": v.Site, "harness": v.Harness}, fmt.Sprintf("harness %s (%s), %s bound %d, schedule %v: %s", v.Harness, v.Param, r.Cost, r.Bound, v.Choices, v.Msg),
-			map[string]interface{}{"engine": "explore", "harness": v.Harness, "choices": v.Choices, "trace": v.Trace, "bound": r.Bound})
+		keys := map[string]string{"engine": "explore", "kind": v.Kind, "site": v.Site, "harness": HarnessFamily(v.Harness)}
+		if v.Kind == "panic" {
+			keys["panic"] = strings.SplitN(v.Msg, "\n", 2)[0]
+		}
+		c.Violation(keys, fmt.Sprintf("harness %s (%s) arg %d, %s bound %d, schedule %v: %s", v.Harness, v.Param, r.Arg, r.Cost, r.Bound, v.Choices, v.Msg),
+			map[string]interface{}{"engine": "explore", "harness": v.Harness, "choices": v.Choices, "trace": v.Trace, "bound": r.Bound, "arg": r.Arg})
 	}
 }
 
@@ -122,6 +126,9 @@ func ReplayMain(file string) {
 		}
 		if b, ok := rec.Replay["bound"].(float64); ok {
 			h.Bound = int(b)
+		}
+		if a, ok := rec.Replay["arg"].(float64); ok {
+			h.Arg = int(a)
 		}
 		x, viols, log := explore.Replay(h, ints(rec.Replay["choices"]))
 		fmt.Println(x.Describe())
@@ -179,4 +186,12 @@ func TraceMain(name string) {
 		fmt.Printf("decision %d: kind=%c n=%d curEnabled=%v\n", i, d.Kind, d.N, d.CurEnabled)
 	}
 	fmt.Println(log, viols)
+}
+
+// HarnessFamily is the harness name up to its first '/' (violations are classified per family).
+func HarnessFamily(name string) string {
+	if i := strings.Index(name, "/"); i >= 0 {
+		return name[:i]
+	}
+	return name
 }
